@@ -92,7 +92,18 @@ def coq_term(c, obs, profile):
         t = bad[c["op"]].split()
     op = c["op"]
     if op in ("sub", "sup"):
-        return "(%s %d %d %s)" % ("CSub" if op == "sub" else "CSup", WIDTH[c["ty"]], c["x"], zl(t[1:]))
+        w = WIDTH[c["ty"]]
+        items = [int(v) for v in t[1:]]
+        out = zl(items)
+        if w > 16:
+            # wide numerals are slow to parse: print each item by its bits at the free positions (Corr.v, unpack)
+            free = c["x"] if op == "sub" else ((1 << w) - 1) ^ c["x"]
+            base = 0 if op == "sub" else c["x"]
+            if all((u & ~free) == base for u in items):
+                pos = [p for p in range(w) if free >> p & 1]
+                idx = [sum(((u >> p) & 1) << k for k, p in enumerate(pos)) for u in items]
+                out = "(unpack_sub %d %s)" % (c["x"], zl(idx)) if op == "sub" else "(unpack_sup %d %d %s)" % (w, c["x"], zl(idx))
+        return "(%s %d %d %s)" % ("CSub" if op == "sub" else "CSup", w, c["x"], out)
     if op == "np":
         return "(CNext %s %s %s)" % (zl(c["d"]), "true" if t[1] == "1" else "false", zl(t[2:]))
     if op == "ip":
